@@ -445,6 +445,12 @@ func (a *allowerContext) update(provider AuthEventProvider) {
 // It returns a NotAllowed error if the event is not allowed.
 // If there was an error loading the auth events then it returns that error.
 func (a *allowerContext) allowed(event PDU) error {
+	// Auth events of another room authorise nothing. This is checked here rather
+	// than by the callers so that it also holds for the reused checker of state
+	// resolution.
+	if !a.provider.Valid() {
+		return errorf("authEvents contains events from different rooms")
+	}
 	switch event.Type() {
 	case spec.MRoomCreate:
 		return a.createEventAllowed(event)
